@@ -339,7 +339,9 @@ pub fn c09_step(cx: &StepCtx<'_, impl Sized>, info: &InputInfo, st: &mut C09Stat
             if post.members != pre.members {
                 return Err(viol("c09:stale-sender-changed-membership", format!("datagram from superseded/Down sender {} changed the membership", p.header.src.show())));
             }
-            if cx.pre.f.verif_handler().seen != cx.post.verif_handler().seen || post.custom_backlog != pre.custom_backlog {
+            // (a rejoin triggered by TurnUndead gossips, which may legitimately
+            // drain the custom backlog; the handler's knowledge is the witness)
+            if cx.pre.f.verif_handler().seen != cx.post.verif_handler().seen || (!info.turn_undead && post.custom_backlog != pre.custom_backlog) {
                 return Err(viol("c09:stale-sender-reached-handler", format!("custom broadcast of superseded/Down sender {} reached the handler", p.header.src.show())));
             }
             let self_death = info.turn_undead;
@@ -602,7 +604,7 @@ pub fn c10_step(
             let mut any_gossip = false;
             for (_, d) in cx.out.sends() {
                 if let Ok(p) = grammar::parse(codec, d) {
-                    if p.header.src == new {
+                    if p.header.src == new && grammar::piggybacks(&p.header.message) && !matches!(p.header.message, Message::Feed) {
                         any_gossip = true;
                         if p.updates.iter().flatten().any(|u| u.id() == old && u.state() == State::Down) {
                             seen_down = true;
